@@ -37,6 +37,14 @@ EVAL_PROGRAMS = {
         {"main.oal": "let x = bool;\nlet t x = { 'v x, 'k rec x { 'n num, 'next? x } };\nres / on get -> <t str>;\n"},
         [("paths./.get.responses.default.content.application/json.schema.properties.v.type", "string"),
          ("paths./.get.responses.default.content.application/json.schema.properties.k.$ref", "~#/components/schemas/hash-")], 0),
+    # three live scopes: the global one, the parameters, the rec binder - a use inside the rec body of a name bound
+    # by a parameter and, further out, by a declaration
+    "parameter-used-inside-a-rec-body-shadows-a-declaration": (
+        {"main.oal": "let item = bool;\nlet wrap item = { 'w rec node { 'value item, 'next? node } };\nres /things on get -> <wrap str>;\n"},
+        [("paths./things.get.responses.default.content.application/json.schema.properties.w.$ref", "~#/components/schemas/hash-"),
+         ("components.schemas.*.properties.value.type", "string")], 0),
+    "parameter-and-outer-rec-binder-used-inside-an-inner-rec": (
+        {"main.oal": "let x = bool;\nlet t x = { 'o rec y { 'i rec z { 'px x, 'py? y, 'pz? z } } };\nres / on get -> <t int>;\n"}, [], 0),
     "declaration-order-is-irrelevant": (
         {"main.oal": "res / on get -> <a>;\nlet a = { 'b b };\nlet b = int;\n"},
         [("paths./.get.responses.default.content.application/json.schema.properties.b.type", "integer")], 0),
@@ -119,6 +127,9 @@ def run_eval_programs(rdir):
             for path, want in expects:
                 cur = doc
                 for seg in split_path(path):
+                    if seg == "*":          # the only entry (a generated component name)
+                        cur = list(cur.values())[0] if isinstance(cur, dict) and len(cur) == 1 else None
+                        continue
                     cur = cur.get(seg) if isinstance(cur, dict) else None
                 got = cur
                 ok = (isinstance(got, str) and got.startswith(want[1:])) if isinstance(want, str) and want.startswith("~") else got == want
